@@ -595,3 +595,126 @@ def r16_no_relock(run, rule='R16', floor=2, fns=None):
                 run.ok(rule, 'no-relock', construct, fn.loc(d), 'no call in the guarded scope reaches a function that locks %s' % m.split('::')[-1])
     if n < floor:
         run.broke('only %d scoped mutex guards found (%d confirmed by hand)' % (n, floor))
+
+
+# ---------------------------------------------------------------------------
+# loop-carried progress of a copy: a memcpy inside a loop must read from a source that changes between iterations
+COPY_FNS = ('memcpy', 'memmove', 'std::memcpy', 'std::memmove', '__builtin_memcpy', '__builtin_memmove')
+LOOPS = ('for', 'while', 'do', 'rangefor')
+
+
+def copy_sources_advance(run, fns, rule='R9', instance='copy-source-advances'):
+    """For every memcpy/memmove that sits in a loop: the source expression must depend on something the loop changes
+    (an offset local that is advanced, a container that is shrunk from the front, the loop variable of a range-for).
+    A loop-invariant source copies the same leading bytes into every chunk. Returns the number of sites examined."""
+    n = 0
+    for fn in fns:
+        if fn.cfg is None:
+            continue
+        for c in fn.calls():
+            if q.callee_name(c) not in COPY_FNS or len(c.get('args', [])) < 3:
+                continue
+            loops = [a for a in fn.ancestors(c) if a['k'] in LOOPS]
+            if not loops:
+                continue
+            n += 1
+            run.touch(fn)
+            ok, why = _source_varies(fn, c['args'][1], loops)
+            top = q.top_function(run.fx, fn).norm
+            run.check(ok, rule, instance, '%s: %s' % (top, q.render(fn, c)[:70]), fn.loc(c),
+                      'the source of this copy (%s) does not change from one iteration of the enclosing loop to the next - nothing it reads is advanced, erased from or re-bound in the loop: every chunk receives the same leading bytes, so data spanning two buffers is corrupted while all counts stay right'
+                      % q.render(fn, c['args'][1])[:80], why)
+    return n
+
+
+def _source_varies(fn, src, loops):
+    inner = loops[0]            # ancestors(): innermost first
+    body_nodes = list(walk(inner))
+    decl_in_loop = {}
+    for x in body_nodes:
+        if x['k'] == 'decl':
+            for v in x['vars']:
+                decl_in_loop[v['did']] = v
+    # everything the source reads, looking through locals declared inside the loop body
+    reads_dids, reads_txt = set(), set()
+    todo, seen = [src], set()
+    while todo:
+        e = todo.pop()
+        for x in walk(e):
+            if x['k'] == 'ref' and x.get('dk') in ('local', 'param'):
+                d = x.get('did')
+                reads_dids.add(d)
+                if d in decl_in_loop and d not in seen and is_node(decl_in_loop[d].get('init')):
+                    seen.add(d)
+                    todo.append(decl_in_loop[d]['init'])
+                rl = q._ref_locals(fn)
+                if d in rl and d not in seen:
+                    seen.add(d)
+                    todo.append(rl[d])
+            if x['k'] in ('member', 'call', 'ref', 'sub'):
+                reads_txt.add(q.render(fn, x))
+    # the loop variable of an enclosing range-for / for
+    for l in [inner]:
+        lv = l.get('var')
+        if isinstance(lv, dict) and lv.get('did') in reads_dids:
+            return True, 'reads the loop variable'
+    for l in [inner]:           # the source must change between iterations of the INNERMOST loop around the copy
+        for x in walk(l):
+            if x['k'] == 'un' and x['op'] in ('++', '--', 'pre++', 'post++', 'pre--', 'post--', '++pre', '++post', '--pre', '--post'):
+                t = q.strip_casts(x['e'])
+                if is_node(t) and t['k'] == 'ref' and t.get('did') in reads_dids and t.get('did') not in decl_in_loop:
+                    return True, 'an offset it reads is stepped in the loop'
+            if x['k'] == 'bin' and x['op'] in ('=', '+=', '-=', '*=', '/='):
+                t = q.strip_casts(x['lhs'])
+                if is_node(t) and t['k'] == 'ref' and t.get('did') in reads_dids and t.get('did') not in decl_in_loop:
+                    return True, 'an offset it reads is advanced in the loop'
+            if x['k'] == 'call' and is_node(x.get('obj')) and 'opc' not in x:
+                m = (x.get('callee') or '').split('::')[-1]
+                if m in q.Access.READ_METHODS:
+                    continue
+                o = q.render(fn, x['obj'])
+                if o and any(t == o or t.startswith(o + '.') or t.startswith(o + '->') for t in reads_txt):
+                    return True, '%s.%s() changes the container it reads' % (o, m)
+            if x['k'] == 'call' and x.get('opc') in ('=', '+=', '-=', '++', '--'):
+                a0 = x['args'][0] if x.get('args') else None
+                t = q.strip_casts(a0) if a0 is not None else None
+                if is_node(t) and t['k'] == 'ref' and t.get('did') in reads_dids and t.get('did') not in decl_in_loop:
+                    return True, 'an iterator it reads is advanced in the loop'
+    return False, ''
+
+
+# ---------------------------------------------------------------------------
+# use-after-move across loop iterations
+def moved_in_loop(run, fns, rule='R1', instance='moved-from-in-loop'):
+    """std::move(x) of a local/parameter declared outside the loop, on a CFG cycle that does not re-assign x: from the
+    second iteration on the moved-from (empty) object is used. Returns the number of std::move sites in loops examined."""
+    n = 0
+    for fn in fns:
+        if fn.cfg is None:
+            continue
+        for c in fn.calls():
+            if q.callee_name(c) != 'std::move' or not c.get('args'):
+                continue
+            x = q.strip_casts(c['args'][0])
+            if not (is_node(x) and x['k'] == 'ref' and x.get('dk') in ('local', 'param')):
+                continue
+            loops = [a for a in fn.ancestors(c) if a['k'] in LOOPS]
+            if not loops:
+                continue
+            inner = loops[0]
+            declared_inside = any(d['k'] == 'decl' and any(v.get('did') == x['did'] for v in d['vars']) for d in walk(inner))
+            lv = inner.get('var')
+            if declared_inside or (isinstance(lv, dict) and lv.get('did') == x['did']):
+                continue
+            n += 1
+            b = fn.cfg.node_block(c)
+            reassign = set()
+            for s, _d in q.local_defs(fn, x['did']):
+                if s['k'] != 'decl':
+                    reassign.add(fn.cfg.node_block(s))
+            reassign.discard(None)
+            again = b is not None and b in fn.cfg.reach_from(b, avoid=reassign)
+            run.check(not again, rule, instance, '%s: std::move(%s)' % (q.top_function(run.fx, fn).norm, x['name']), fn.loc(c),
+                      '%s is moved from inside a loop but declared outside it and not re-assigned on the way round: from the second iteration on the moved-from (empty) object is used - e.g. only the first segment of a write gets its drop callback' % x['name'],
+                      'the loop is left (or %s re-assigned) before the move can execute again' % x['name'])
+    return n
